@@ -14,7 +14,8 @@ import numpy as np
 from odl.operator.operator import (
     Operator, OperatorComp, OperatorLeftScalarMult, OperatorRightScalarMult,
     OperatorRightVectorMult, OperatorSum, OperatorPointwiseProduct)
-from odl.operator.default_ops import (IdentityOperator, ConstantOperator)
+from odl.operator.default_ops import (
+    IdentityOperator, ConstantOperator, ScalingOperator)
 from odl.solvers.nonsmooth import (proximal_arg_scaling, proximal_translation,
                                    proximal_quadratic_perturbation,
                                    proximal_const_func, proximal_convex_conj)
@@ -208,7 +209,12 @@ class Functional(Operator):
             # Also covers functionals on a field, whose gradient values are
             # plain numbers without ``T``
             return self
-        return self.gradient(point).T
+
+        grad = self.gradient(point)
+        if self.domain == self.range:
+            # Functional on a field, the gradient value is a plain number
+            return ScalingOperator(self.domain, grad)
+        return grad.T
 
     def translated(self, shift):
         """Return a translation of the functional.
